@@ -46,6 +46,7 @@ import (
 	"encoding/json"
 	"errors"
 	"fmt"
+	"runtime"
 	"strconv"
 	"strings"
 	"sync"
@@ -99,6 +100,33 @@ func c06Err(err error) string {
 		return "cacheerr"
 	}
 	return "err:" + strings.ReplaceAll(err.Error(), " ", "_")
+}
+
+// c06Panic canonicalises a recovered panic value into one token.
+func c06Panic(p any) string {
+	b := []byte(fmt.Sprint(p))
+	for i, ch := range b {
+		if !(ch >= 'a' && ch <= 'z' || ch >= 'A' && ch <= 'Z' || ch >= '0' && ch <= '9') {
+			b[i] = '_'
+		}
+	}
+	if len(b) > 120 {
+		b = b[:120]
+	}
+	return "PANIC:" + string(b)
+}
+
+// c06Join waits for the reader goroutines of a concurrent read; false = they did not all return (a reader parked
+// for good on a barrier that is never released is a failing input too, not a reason to hang the run).
+func c06Join(wg *sync.WaitGroup) bool {
+	done := make(chan struct{})
+	go func() { wg.Wait(); close(done) }()
+	select {
+	case <-done:
+		return true
+	case <-time.After(60 * time.Second):
+		return false
+	}
 }
 
 func c06Opt(op []string, k, dflt string) string {
@@ -179,7 +207,7 @@ func TestVerifC06(t *testing.T) {
 			res := ""
 			how := "order"
 			var cc CachedConn
-			if op[0] != "ctake" {
+			if op[0] != "ctake" && op[0] != "cmix" {
 				cc = ccs[cache.VerifC06InstOf(op, len(ccs))]
 			}
 			switch op[0] {
@@ -235,6 +263,12 @@ func TestVerifC06(t *testing.T) {
 					wg.Add(1)
 					go func(i int) {
 						defer wg.Done()
+						// a panic of the real code in a reader goroutine is an observation, not the end of the run
+						defer func() {
+							if p := recover(); p != nil {
+								results[i] = c06Panic(p)
+							}
+						}()
 						rc := ccs[via[i%len(via)]]
 						cls := classes[via[i%len(via)]]
 						mu.Lock()
@@ -280,10 +314,18 @@ func TestVerifC06(t *testing.T) {
 						results[i] = r
 					}(i)
 				}
-				wg.Wait()
+				first := results[0]
+				if !c06Join(&wg) {
+					first = "PANIC:readers-did-not-return"
+				} else {
+					first = results[0]
+				}
 				distinct := map[string]bool{}
 				for _, r := range results {
 					distinct[r] = true
+					if strings.HasPrefix(r, "PANIC") && !strings.HasPrefix(first, "PANIC") {
+						first = r
+					}
 				}
 				// database queries: one per flight. One barrier class, no fault: exactly one (printed); several
 				// classes: each class loads at most once (1..#classes, `ok`); database fault: every flight
@@ -295,7 +337,166 @@ func TestVerifC06(t *testing.T) {
 					qs = "ok"
 				}
 				cleaner.Sync()
-				return fmt.Sprintf("%s q=%s cmds=- inflight=%d distinct=%d | %s", results[0], qs, maxInflight, len(distinct), dump())
+				return fmt.Sprintf("%s q=%s cmds=- inflight=%d distinct=%d | %s", first, qs, maxInflight, len(distinct), dump())
+			case "cmix":
+				// concurrent readers of SEVERAL keys through the same barrier(s), optionally each going on to a second
+				// key right after its first read returned ("user, then order"): `cmix p0+p1 n=6 chain=1 gmp=1 i=0+1`.
+				// Reader r reads key K[r mod |K|] through instance via[r mod |via|], then (chain=1) key K[(r+1) mod |K|].
+				// The first query of every key is held open until every reader has been launched. `gmp=1` runs the op
+				// with GOMAXPROCS(1) (one P: a woken waiter runs only after the goroutine that woke it yields).
+				// Printed: every read with its result, per key what its database queries returned and how many ran,
+				// the largest number of queries in flight for one key under one promised barrier.
+				var toks, rkeys []string
+				var pks []int
+				for _, t := range strings.Split(op[1], "+") {
+					toks = append(toks, t)
+					rkeys = append(rkeys, key(t)) // resolved here: the map behind key() is not for concurrent use
+					pks = append(pks, verifh.Atoi(t[1:]))
+				}
+				n := verifh.Atoi(c06Opt(op, "n", "4"))
+				chain := c06Opt(op, "chain", "0") == "1"
+				var via []int
+				for _, t := range strings.Split(c06Opt(op, "i", "0"), "+") {
+					i := verifh.Atoi(t)
+					if i < 0 || i >= len(ccs) {
+						panic("bad i= in op: " + strings.Join(op, " "))
+					}
+					via = append(via, i)
+				}
+				ncls := map[string]bool{}
+				for _, i := range via {
+					ncls[classes[i]] = true
+				}
+				if c06Opt(op, "gmp", "0") == "1" {
+					defer runtime.GOMAXPROCS(runtime.GOMAXPROCS(1))
+				}
+				var mu sync.Mutex
+				inflight, maxInflight := map[string]int{}, 0
+				started := 0
+				count := map[string]int{}
+				loaded := map[string]map[string]bool{}
+				per := 1
+				if chain {
+					per = 2
+				}
+				reads := make([]string, n*per)
+				for i := range reads {
+					reads[i] = "-"
+				}
+				read := func(slot int, rc CachedConn, cls string, ki int) {
+					tok, pk := toks[ki], pks[ki]
+					reads[slot] = fmt.Sprintf("%d/%s/", slot/per, tok)
+					var v c06Row
+					err := rc.QueryRowCtx(ctx, &v, rkeys[ki], func(ctx context.Context, conn sqlx.SqlConn, v any) error {
+						mu.Lock()
+						inflight[cls+"/"+tok]++
+						count[tok]++
+						if inflight[cls+"/"+tok] > maxInflight {
+							maxInflight = inflight[cls+"/"+tok]
+						}
+						mu.Unlock()
+						for k := 0; k < 2000; k++ {
+							mu.Lock()
+							all := started == n
+							mu.Unlock()
+							if all {
+								break
+							}
+							time.Sleep(50 * time.Microsecond)
+						}
+						time.Sleep(300 * time.Microsecond)
+						res, ret := "", error(nil)
+						if r, ok := rows[pk]; dbfail {
+							res, ret = "dberr", errC06DB
+						} else if !ok {
+							res, ret = "notfound", notFound
+						} else {
+							*v.(*c06Row) = r
+							res = fmt.Sprintf("val:r:%d:%d:%d", r.Id, r.V, r.A)
+						}
+						mu.Lock()
+						inflight[cls+"/"+tok]--
+						if loaded[tok] == nil {
+							loaded[tok] = map[string]bool{}
+						}
+						loaded[tok][res] = true
+						mu.Unlock()
+						return ret
+					})
+					r := isNF(c06Err(err), err)
+					if err == nil {
+						r = fmt.Sprintf("val:r:%d:%d:%d", v.Id, v.V, v.A)
+					}
+					reads[slot] += r
+				}
+				var wg sync.WaitGroup
+				for i := 0; i < n; i++ {
+					wg.Add(1)
+					go func(i int) {
+						defer wg.Done()
+						slot := i * per
+						defer func() {
+							if p := recover(); p != nil {
+								reads[slot] = fmt.Sprintf("%d/%s/%s", i, toks[(i+slot%per)%len(toks)], c06Panic(p))
+							}
+						}()
+						rc, cls := ccs[via[i%len(via)]], classes[via[i%len(via)]]
+						mu.Lock()
+						started++
+						mu.Unlock()
+						read(slot, rc, cls, i%len(toks))
+						if chain {
+							slot++
+							read(slot, rc, cls, (i+1)%len(toks))
+						}
+					}(i)
+				}
+				res = "ok"
+				if !c06Join(&wg) {
+					res = "PANIC:readers-did-not-return"
+				}
+				mu.Lock()
+				total := 0
+				var loads []string
+				seen := map[string]bool{}
+				for _, tok := range toks {
+					if seen[tok] || count[tok] == 0 {
+						continue
+					}
+					seen[tok] = true
+					total += count[tok]
+					// queries of one key: exactly one under one barrier class without a fault; one per class with
+					// several classes; with a database fault every flight re-queries (both printed as `ok`)
+					nreads := 0
+					for _, r := range reads {
+						if strings.Contains(r, "/"+tok+"/") {
+							nreads++
+						}
+					}
+					cs := strconv.Itoa(count[tok])
+					if dbfail && count[tok] <= nreads {
+						cs = "ok"
+					} else if !dbfail && len(ncls) > 1 && count[tok] <= len(ncls) {
+						cs = "ok"
+					}
+					var ls []string
+					for l := range loaded[tok] {
+						ls = append(ls, l)
+					}
+					loads = append(loads, tok+"/"+cs+"/"+verifh.SortedJoin(ls))
+				}
+				qs := strconv.Itoa(total)
+				if (dbfail || len(ncls) > 1) && total >= 1 {
+					qs = "ok"
+				}
+				ld := "-"
+				if len(loads) > 0 {
+					ld = strings.ReplaceAll(strings.Join(loads, ","), " ", "|")
+				}
+				out := fmt.Sprintf("%s q=%s cmds=- inflight=%d reads=%s loads=%s", res, qs, maxInflight, strings.Join(reads, ","), ld)
+				mu.Unlock()
+				cleaner.Sync()
+				return out + " | " + dump()
 			case "qindex":
 				a := verifh.Atoi(op[1][1:])
 				var v c06Row
@@ -615,11 +816,18 @@ var c06InstanceScenarios = []verifh.Section{
 		"del p1,p2,p3 i=2", "ctake p1 n=4 i=0+1", "del p1 i=0", "ctake p1 n=6 i=0+1+2 j=0", "del p1", "ctake p1 n=5 i=1+2 db=1",
 		"del p1", "ctake p1 n=4 i=3+4", "del p1", "ctake p1 n=4 i=0+4 j=500", "del p1", "ctake p1 n=6 i=1+3+5", "ctake p7 n=3 i=0+1+2",
 		"setx p4 r:4:40:4 0 j=0 i=3", "set p5 r:5:50:5 i=2 j=1000", "get p4 i=0", "get p5 i=4",
+		// readers of several keys at once, each going on to the next key; one P and many Ps; a cached key, an
+		// absent row and a database fault among them; across instances of one barrier and of several
+		"exec p2,x2 put:2:20:2 i=0", "del p1,p2,p3 i=0", "cmix p1+p2 n=6 chain=1 gmp=1 i=0", "del p1,p2 i=1", "cmix p1+p2+p3 n=8 chain=1 gmp=0 i=0+1+2 j=0",
+		"del p1,p2,p3", "cmix p2+p1 n=5 chain=0 gmp=1 i=1+2", "cmix p1+p2 n=4 chain=1 gmp=1 i=0", "del p1", "cmix p1+p3+p2 n=6 chain=1 gmp=1 i=2 j=1000",
+		"del p1,p2,p3", "cmix p1+p2 n=6 chain=1 gmp=1 db=1 i=0+1", "cmix p1+p2 n=4 chain=1 gmp=0 i=3+4", "del p1,p2", "cmix p1+p2 n=6 chain=1 gmp=1 i=0+3+5",
+		"del p1,p2,p3", "cmix p3 n=3 chain=0 gmp=1 w=1 i=0", "cmix p1 n=2 chain=1 gmp=1 i=0",
 	}},
 	{Cfg: "inst=conn/20000/3000,conn/-/-,wc0/1/1,conn/0/-1 stale=report nodes=3 type=cluster place=p1:0,x1:1,p2:2,x2:0", Ops: []string{
 		"insts", "exec p1,x1 put:1:10:1 i=1", "exec p2,x2 put:2:20:2 i=2", "qindex x1 i=0 j=500", "qindex x2 i=1 j=0", "take p1 i=2", "take p2 i=3",
 		"exec p1,x1,p2,x2 put:1:11:2 c=1/0/1 i=3", "take p1 i=0", "qindex x2 i=1", "tick 1 c=000", "take p2 i=2 j=1000", "qindex x2 i=0",
 		"del p1,p2 i=2", "ctake p1 n=6 i=0+1+3", "ctake p2 n=4 i=1+2", "take p3 i=2 j=0", "take p3 i=3",
+		"del p1,p2,p3 i=0", "cmix p1+p2+p3 n=7 chain=1 gmp=1 i=0+1+3", "del p1,p2", "cmix p2+p1 n=4 chain=1 gmp=0 i=0+2 j=0",
 	}},
 }
 
@@ -709,6 +917,15 @@ func c06Gen(r *verifh.Rng) []verifh.Section {
 				ops = append(ops, fmt.Sprintf("qindex x%d%s%s%s", pkey(), c06J(r), c06Mask(r, 4), c06DBFault(r))+iv())
 			case x < 43:
 				ops = append(ops, fmt.Sprintf("ctake p%d n=%d%s%s", pkey(), r.Range(2, 6), c06J(r), c06DBFault(r))+ivs())
+			case x < 47:
+				// concurrent readers of several keys, chained second reads, one P / many Ps
+				pool := r.Range(1, nk+1)
+				var ks []string
+				for k, want := r.Intn(pool), r.Range(1, 3); len(ks) < want && len(ks) < pool; k++ {
+					ks = append(ks, fmt.Sprintf("p%d", k%pool))
+				}
+				o := fmt.Sprintf("cmix %s n=%d chain=%d gmp=%d%s%s", strings.Join(ks, "+"), r.Range(2, 8), r.Intn(2), r.Intn(2), c06J(r), c06DBFault(r))
+				ops = append(ops, o+ivs())
 			case x < 62:
 				val++
 				w := fmt.Sprintf("put:%d:%d:%d", pkey(), val, pkey())
